@@ -33,7 +33,7 @@ def hop_expr(ltensor, rtensor, cmo, cshape, twolayer:bool=False):
             #   O-c-O-i-O
             #   S-d h k-S
             expr = oe_contract_expression(
-                "abcd, befg, cfhi, jgik, aej -> dhk",
+                "abcd, befg, cfhi, jgik, dhk -> aej",
                 ltensor, cmo[0], cmo[0], rtensor, cshape,
                 constants=[0, 1, 2, 3]
             )
@@ -44,7 +44,7 @@ def hop_expr(ltensor, rtensor, cmo, cshape, twolayer:bool=False):
             #   O-c-O-i-O-n-O
             #   S-d h   m p-S
             expr = oe_contract_expression(
-                "abcd, befg, cfhi, gjkl, ikmn, olnp, aejo -> dhmp",
+                "abcd, befg, cfhi, gjkl, ikmn, olnp, dhmp -> aejo",
                 ltensor, cmo[0], cmo[0], cmo[1], cmo[1], rtensor, cshape,
                 constants=[0, 1, 2, 3, 4, 5],
             )
